@@ -28,7 +28,14 @@ def plain_calls():
         t.text = x
         t.set('note', x)
         return c
+    def bare_cfg(x):
+        c = etree.Element('config')            # un-qualified <config> root, as users often build it
+        t = etree.SubElement(c, '{urn:x}top')
+        t.text = x
+        t.set('note', x)
+        return c
     return [
+        ('edit_config-bare-xml', 'default', lambda x, y: ('edit_config', dict(config=bare_cfg(x), target='running')), 2),
         ('kill_session', 'default', lambda x, y: ('kill_session', dict(session_id=x)), 1),
         ('get_schema', 'default', lambda x, y: ('get_schema', dict(identifier=x, version=y)), 2),
         ('create_subscription', 'default', lambda x, y: ('create_subscription', dict(stream_name=x, start_time=y)), 2),
@@ -157,7 +164,7 @@ class C07(Check):
     PROPS_MODULE = 'NcVerif.Props.C07'
     RULE = ('(a) the regenerated operation table (every standard and vendor operation x argument shape x profile envelope; each row a case): '
             'root / single operation element / RFC 6241 order / enumerations / caller strings exactly once, parsed off the wire with xml.etree; '
-            '(b) 23 call templates instantiated with random nasty strings (markup characters, quotes, CR/LF/TAB, Unicode incl. astral, "]]>", '
+            '(b) 26 call templates (each call issued twice with the same argument objects: the second request must equal the first) instantiated with random nasty strings (markup characters, quotes, CR/LF/TAB, Unicode incl. astral, "]]>", '
             'long) and XML fragments, the request parsed with xml.etree (not lxml) and every string required to come back unaltered exactly '
             'where it belongs; (c) the model\'s escapeText/escapeAttr compared byte for byte with lxml\'s serialisation, and readText/readAttr '
             'with expat, on random strings; (d) random namespace-free trees built with new_ele/sub_ele: to_xml compared byte for byte with the model\'s '
@@ -233,6 +240,25 @@ class C07(Check):
             exc = type(e).__name__
         if not s.sent:
             return {'sent': 0, 'exc': exc}
+        # the SAME argument objects handed to the operation once more (one config object pushed to several devices): the second
+        # request must carry the same content - a call must not consume or alter what the caller passed in
+        first_only = list(s.sent)
+        repeat = None
+        try:
+            getattr(m, method)(**kw)
+            if len(s.sent) == 2 * len(first_only):
+                strip = lambda t: __import__('re').sub(r'message-id="[^"]*"', 'message-id=""', t)
+                repeat = [strip(a) == strip(b) for a, b in zip(first_only, s.sent[len(first_only):])]
+            else:
+                repeat = 'sent %d then %d' % (len(first_only), len(s.sent) - len(first_only))
+        except Exception as e:
+            # an exception raised while digesting the stub's canned reply (after the request went out) is not about the request
+            if type(e).__name__ == exc and len(s.sent) == 2 * len(first_only):
+                strip = lambda t: __import__('re').sub(r'message-id="[^"]*"', 'message-id=""', t)
+                repeat = [strip(a) == strip(b) for a, b in zip(first_only, s.sent[len(first_only):])]
+            else:
+                repeat = 'exc:' + type(e).__name__
+        del s.sent[len(first_only):]
         try:
             root = ET.fromstring(s.sent[0].encode('utf-8'))
         except Exception as e:
@@ -251,7 +277,7 @@ class C07(Check):
             for a, v in el.attrib.items():
                 if a != 'message-id':
                     attrs.append(v)
-        return {'sent': len(s.sent), 'texts': texts, 'attrs': attrs, 'root': root.tag, 'nops': len(list(root)), 'nsdecls': decls}
+        return {'sent': len(s.sent), 'texts': texts, 'attrs': attrs, 'root': root.tag, 'nops': len(list(root)), 'nsdecls': decls, 'repeat': repeat}
 
     def model_lines(self, case):
         if case['kind'] == 'esc':
@@ -320,6 +346,8 @@ class C07(Check):
             return None
         if io['sent'] != 1 or io['root'] != '{%s}rpc' % BASE or io['nops'] != 1:
             return ('C07:shape:' + name, 'not exactly one <rpc> with one operation element')
+        if io.get('repeat') is not None and io['repeat'] != [True] * len(io['repeat'] if isinstance(io['repeat'], list) else []):
+            return ('C07:second-call-differs:' + name, 'the same call with the same argument objects, issued a second time, did not send the same request (%s)' % (io['repeat'],))
         want = plain_calls()[case['call']][3]
         x, y = case['x'], case['y']
         if name in NS_BINDINGS:
@@ -338,8 +366,8 @@ class C07(Check):
             if want == 0:
                 continue
             n = sum(1 for v in hay if tail(v, sval))
-            expect = 2 if name in ('edit_config-xml', 'edit_config-xmlstr', 'rpc-element') else 1
-            if sname == 'y' and name in ('edit_config-xml', 'edit_config-xmlstr', 'rpc-element'):
+            expect = 2 if name in ('edit_config-xml', 'edit_config-xmlstr', 'rpc-element', 'edit_config-bare-xml') else 1
+            if sname == 'y' and name in ('edit_config-xml', 'edit_config-xmlstr', 'rpc-element', 'edit_config-bare-xml'):
                 continue
             if x == y:
                 continue
